@@ -106,11 +106,49 @@ def binding(work):
     return ok
 
 
+def rows_binding(work):
+    """Row specs (C17, C18): a falsified row must be rejected with the expected clause."""
+    import random
+    import props
+    import crash
+    ok = True
+    # C17
+    rows, _ = props.c17_rows([b"s:http|h:com|h:ex|p:a|", b"s:https|t:80|h:com|h:ex|h:www|"])
+    v = runner.validate_rows(rows, os.path.join(work, "v17a"))
+    clean = all(not v["verdicts"][r["id"]] for r in rows)
+    bad = copy.deepcopy(rows)
+    bad[0]["vars"] = bad[0]["vars"][:-1]                     # one variation dropped
+    bad[1]["vars"] = [bad[1]["vars"][1], bad[1]["vars"][0]] + bad[1]["vars"][2:]   # not itself first
+    v2 = runner.validate_rows(bad, os.path.join(work, "v17b"))
+    c0 = [c for _, c in v2["verdicts"][0]]
+    c1 = [c for _, c in v2["verdicts"][1]]
+    print("rows C17: clean accepted=%s; dropped variation -> %s; reordered -> %s" % (clean, c0[:3], c1[:3]))
+    ok = ok and clean and "C17.equal" in c0 and "C17.head" in c1
+    # C18
+    d = gen.Driver(4242, {"nlrus": 7, "long": 0.8, "weights": {"Reopen": 0, "Clear": 0}}, "file")
+    hist = crash.record_history(d, 5)
+    rws = crash.enumerate_cuts(hist, 0, [0], files_every=4)
+    hists = [{"pages": [l for l, _ in hist["final"]["pages"]],
+              "links": [{"s": s, "t": t, "w": w} for s, t, w in hist["final"]["outs"]]}]
+    v = props.validate_crash_rows(rws, hists, os.path.join(work, "v18a"))
+    clean = all(not [c for _, c in v["verdicts"][r["id"]] if c.startswith("C18.")] for r in rws)
+    bad = copy.deepcopy(rws)
+    opened = [r for r in bad if r["outcome"] == "opened"]
+    opened[-1]["pages"] = list(opened[-1]["pages"]) + [b"s:http|h:never|h:submitted|"]
+    opened[0]["qfail"] = ["count_pages:TypeError"]
+    v2 = props.validate_crash_rows(bad, hists, os.path.join(work, "v18b"))
+    ca = [c for _, c in v2["verdicts"][opened[-1]["id"]]]
+    cb = [c for _, c in v2["verdicts"][opened[0]["id"]]]
+    print("rows C18: %d cuts, clean accepted=%s; invented page -> %s; failing query -> %s" % (len(rws), clean, ca[:2], cb[:2]))
+    ok = ok and clean and "C18.subset.pages" in ca and "C18.queries" in cb
+    return ok
+
+
 def main():
     work = tempfile.mkdtemp(prefix="verif_selftest_")
     try:
         a = spec_mutants(work)
-        b = binding(work)
+        b = binding(work) and rows_binding(work)
     finally:
         shutil.rmtree(work, ignore_errors=True)
     print("SELFTEST", "OK" if a and b else "FAILED")
